@@ -178,6 +178,10 @@ func init() {
 				`<%= partial("pg", {layout: "frame"}) %>|<%= partial("pg", {layout: "frame"}) %>`, "xmx|xmx"},
 			{map[string]string{"pg": `<% contentFor("side") { %>x<% } %>m`, "frame": `{<%= yield %>}`},
 				`<%= partial("pg", {layout: "frame"}) %><%= contentOf("side") { %>default<% } %>`, "{m}default"},
+			{map[string]string{"row": `<td><%= who %></td>`, "frame": `<tr><%= yield %></tr>`},
+				`<% let opts = {layout: "frame", who: "a"} %><%= partial("row", opts) %>|<%= partial("row", opts) %>|<%= opts["layout"] %><%= len(opts) %>`, "<tr><td>a</td></tr>|<tr><td>a</td></tr>|frame2"},
+			{map[string]string{"row": `<% let who = who + "!" %><i><%= who %></i>`, "frame": `<%= who %>:<%= yield %>`},
+				`<% let d = {who: "w", layout: "frame"} %><%= for (i) in [1, 2] { %><%= partial("row", d) %>;<% } %><%= d["who"] %>`, "w!:<i>w!</i>;w!:<i>w!</i>;w"},
 			{map[string]string{"pg": `<% contentFor("t") { %>T<%= s %><% } %>b`, "frame": `<%= contentOf("t") { %>none<% } %>/<%= yield %>`, "outer": `<%= partial("pg", {layout: "frame"}) %>`},
 				`<%= partial("outer") %>`, "Ta&lt;b/b"},
 		} {
